@@ -248,13 +248,14 @@ def r10_1(ctx):
             ctx.require(ok, "ash:close", "AshProtocol.close does not release pending sends and close the transport", func=c, trace=p.trace())
 
 
-@rule("R10.2", ["C10"], "T-GATE", floor=8)
+@rule("R10.2", ["C10", "C19"], "T-GATE", floor=8)
 def r10_2(ctx):
     """From a reported failure to the controller-reset request, and the gates that keep a stopped stack silent:
     EZSP.connection_lost -> enter_failed_state; with an application attached (two or more callbacks)
     enter_failed_state stops EZSP, closes the gateway and then issues exactly one '_reset_controller_application'
     callback (with only the built-in callback nothing is required); the application turns that callback into
-    connection_lost(reason); EZSP._command raises without reaching the protocol handler when EZSP is stopped;
+    connection_lost(reason); EZSP._command raises without reaching the protocol handler when EZSP is stopped, and a command
+    attempted after enter_failed_state raises EzspError (the handler reference survives the close);
     AshProtocol._write_frame raises without writing when the transport is gone or closing, and nothing else writes
     to the transport."""
     anchor_attrs(ctx, "EZSP", "_callbacks", "_gw", "_ezsp_event", "_protocol")
@@ -283,6 +284,33 @@ def r10_2(ctx):
                             trace=p.trace(12))
             else:
                 ctx.require(p.terminal == "return", "enter_failed_state:no-app", f"raises {p.value!r} with no application attached", func=f)
+    # after the failure has been handled, a command attempt (the watchdog's keep-alive, a queued request) must fail at the
+    # running gate with EzspError - the exception the callers count and handle - and must not reach a handler
+    ga = repo.func(f"{EZ}:EZSP.__getattr__")
+    cmds = repo.get("bellows.ezsp.v4.commands", "COMMANDS")
+    for ncb in (1, 2):
+        px = PX(repo, inline=same_class(stop=("handle_callback",)), models=[("*.is_set", lambda px_, t, a, k, fr: False)])
+        px.inline.root = f
+
+        def entry():
+            handler = Obj(TypeRef("Handler"), {"COMMANDS": cmds}, tag="handler")
+            me = self_obj(ez, {"_callbacks": {i: Sym(f"cb{i}") for i in range(ncb)}, "_gw": Obj(TypeRef("Gateway"), {}, tag="gw"),
+                               "_ezsp_event": Obj(TypeRef("asyncio.Event"), {}, tag="event"), "_protocol": handler})
+            px.top_frame = None
+            px.call_function(f, me, [Sym("error")], {}, None)
+            if ncb >= 2:
+                cmd = px.call_function(ga, me, ["nop"], {}, None)
+                px.do_call(cmd, "ezsp.nop", [], {}, None, None, True)
+            return None
+
+        for p in px._run(entry):
+            ctx.paths += 1
+            if ncb >= 2:
+                sent = [e for e in p.events if e.kind == "await"]
+                ctx.require(p.terminal == "raise" and p.raised("EzspError") and not sent, "command-after-failure",
+                            f"a command attempted after enter_failed_state {'reaches a handler' if sent else ''} and ends with {p.terminal} {p.value!r}; it must raise "
+                            "EzspError at the running gate (anything else - e.g. an AttributeError on a cleared handler reference - is not what the "
+                            "watchdog and the request paths count as a failed command)", func=f, trace=p.trace(16))
     cl = repo.func(f"{EZ}:EZSP.connection_lost")
     for p in PX(repo, inline=same_class(stop=("enter_failed_state",)), models=[("self._config[conf.CONF_DEVICE_PATH]", lambda *a: "dev")]).explore(
             cl, lambda: (self_obj(ez, {}), {"exc": Sym("exc")})):
